@@ -45,6 +45,11 @@ CHECKS = {
                      "getAttribute, malformed/unknown metadata, keyword arguments) is grafted at 23 kinds of live position with random valid filler expressions on all three backends; "
                      "translation must raise (any exception type).",
                 note="positions are live by construction; the catalogue is finite and listed in the evidence file", ref="4/C09"),
+    "C13": dict(cat="exploration", technique="exhaustive operator x operand-kind table executed as columns of sanitized generated jobs; values and booked column types compared with Python's results",
+                text="Every cell of {+,-,*,/,%,**} x 8 operand kinds squared, unary x kinds, comparisons x kind pairs, Sum/Min/Max/Aggregate x element kind x seed kind and conditionals x arm kinds "
+                     "is an output column of a per-object query; the job's value on every decided object and the booked column type class must agree with Python. Exhaustive over the table, "
+                     "sampled over values.",
+                note="conditional / Min / Max / ** columns may be floating (as C03 and C13 word it); rows with zero divisors, complex or huge results are UNSPEC", ref="4/C13"),
 }
 
 PENDING_REASON = "check not built yet at this commit (work in progress, see DESIGN.md section 4)"
